@@ -42,6 +42,12 @@ def lib():
                 "ConditionalIdentityGaussianPDF": conditional.ConditionalIdentityGaussianPDF,
                 "ConditionalIdentityDiagGaussianPDF": conditional.ConditionalIdentityDiagGaussianPDF,
                 "NNControlGaussianConditional": conditional.NNControlGaussianConditional,
+                "LRBFGaussianConditional": approximate_conditional.LRBFGaussianConditional,
+                "LSEMGaussianConditional": approximate_conditional.LSEMGaussianConditional,
+                "HeteroscedasticExpConditional": approximate_conditional.HeteroscedasticExpConditional,
+                "HeteroscedasticCoshM1Conditional": approximate_conditional.HeteroscedasticCoshM1Conditional,
+                "HeteroscedasticHeavisideConditional": approximate_conditional.HeteroscedasticHeavisideConditional,
+                "HeteroscedasticReLUConditional": approximate_conditional.HeteroscedasticReLUConditional,
             },
         )
     return _L
@@ -54,7 +60,14 @@ KIND = {
     "ConditionalGaussianPDF": "cond", "ConditionalGaussianDiagPDF": "cond",
     "ConditionalIdentityGaussianPDF": "cond", "ConditionalIdentityDiagGaussianPDF": "cond",
     "NNControlGaussianConditional": "cond",
+    "LRBFGaussianConditional": "cond", "LSEMGaussianConditional": "cond",
+    "HeteroscedasticExpConditional": "cond", "HeteroscedasticCoshM1Conditional": "cond",
+    "HeteroscedasticHeavisideConditional": "cond", "HeteroscedasticReLUConditional": "cond",
 }
+FEATURE = ("LRBFGaussianConditional", "LSEMGaussianConditional")
+HETERO = ("HeteroscedasticExpConditional", "HeteroscedasticCoshM1Conditional", "HeteroscedasticHeavisideConditional",
+          "HeteroscedasticReLUConditional")
+APPROX = FEATURE + HETERO
 IDENT = ("ConditionalIdentityGaussianPDF", "ConditionalIdentityDiagGaussianPDF")
 
 
@@ -237,6 +250,34 @@ def gen_root(rng, cls, R, D, Dx=None, variant=None, cond_max=1e2, scale=1.0):
             kw["Lambda"] = np.linalg.inv(Sig)
         if variant == "all":
             kw["ln_det_Sigma"] = np.linalg.slogdet(Sig)[1]
+    elif cls in FEATURE:
+        Dy = D
+        Dk = rng.integers(1, 3)
+        kw["M"] = rng.normal((1, Dy, Dk + Dx), 0.7)
+        kw["b"] = rng.normal((1, Dy), 0.7)
+        if cls == "LRBFGaussianConditional":
+            kw["mu"] = rng.normal((Dk, Dx), 1.0)
+            kw["length_scale"] = rng.uniform(0.6, 2.0, (Dk, Dx))
+        else:
+            kw["W"] = rng.normal((Dk, Dx + 1), 0.7)
+        variant = variant or rng.choice(["sigma", "lambda"])
+        Sig = rng.spd(1, Dy, cond_max)
+        if variant == "sigma":
+            kw["Sigma"] = Sig
+        else:
+            kw["Lambda"] = np.linalg.inv(Sig)
+    elif cls in HETERO:
+        Dy = D
+        Da = Dy + (rng.integers(0, 2) if variant != "square" else 0)
+        Dk = rng.integers(1, Da)
+        Am = np.zeros((1, Dy, Da))
+        # well conditioned A A' : orthonormal rows times moderate scales, extra columns random
+        Am[0] = (rng.orth(Da)[:Dy] * rng.uniform(0.5, 1.5, (1, Da)))
+        kw["M"] = rng.normal((1, Dy, Dx), 0.7)
+        kw["b"] = rng.normal((1, Dy), 0.7)
+        kw["A"] = Am
+        kw["W"] = rng.normal((Dk, Dx + 1), 0.5)
+        variant = "Da=Dy" if Da == Dy else "Da>Dy"
     else:
         raise KeyError(cls)
     return kw, variant
@@ -485,6 +526,9 @@ def ctx_of(w, rec, before=None):
                 pass
             if before and sid in before:
                 c["mask_" + k] = before[sid].split(":")[2]
+            if s.cls in HETERO:
+                c["Da_" + k], c["Dk_" + k] = int(o.Da), int(o.Dk)
+    c["_rec"] = rec
     for k in ("x", "y"):
         if rec.get(k) is not None:
             c["N"] = int(np.shape(rec[k])[0])
